@@ -471,6 +471,12 @@ func (s *reprovider) Reprovide(ctx context.Context) error {
 	if s.throughputCallback != nil && s.throughputMinimumProvides < batchSize {
 		batchSize = s.throughputMinimumProvides
 	}
+	if batchSize == 0 {
+		// MaxBatchSize(0) or ThroughputReport(_, 0): a batch has to read at
+		// least one key, otherwise the loop below never sees the end of the
+		// key stream and spins forever.
+		batchSize = 1
+	}
 
 	cids := make(map[cid.Cid]struct{}, min(batchSize, 1024))
 	allCidsProcessed := false
